@@ -6,7 +6,7 @@
    followed by Print Assumptions. *)
 From SC Require Import Lib.Prelude Lib.Int Lib.Host Model.Math Model.Fungible Model.FungibleObs
   Proofs.FungibleBasics Proofs.FungibleExec Proofs.FungibleAllow Proofs.FungibleInv Proofs.FungibleObsFacts
-  Proofs.FungibleVotes Run.C01 Proofs.C01Monitor Proofs.C01Final.
+  Proofs.FungibleVotes Run.C01 Proofs.C01Monitor Proofs.C01Final Proofs.C01Parties.
 
 (* Base::update preserves: no negative balance, total_supply = sum of all stored balances,
    0 <= total_supply <= i128::MAX. *)
@@ -142,6 +142,27 @@ Theorem C01_events_replay : forall c start cs, wf_cfg c = true ->
   (forall a, fst (replay (hist s)) a = balance (tk s) a) /\ snd (replay (hist s)) = supply (tk s).
 Proof. exact events_replay_final. Qed.
 Print Assumptions C01_events_replay.
+
+(* Special addresses as parties.  Outside the vault flavour no call of the model looks at the token contract's
+   own address ([c_self]): an account is an account, whether it is a user, another registered contract or the
+   token contract itself - renaming "self" changes nothing in any run.  (The harness ties this to the code: in
+   every flavour the contract's own address, a forwarder contract and an account-type address hold tokens and
+   are used as from / to / owner / spender / operator / receiver / delegatee / queried account.) *)
+Theorem C01_contract_address_is_an_ordinary_account : forall c x s cs, c_flav c <> FVault ->
+  run {| c_host := c_host c; c_flav := c_flav c; c_self := x; c_offset := c_offset c |} s cs = run c s cs.
+Proof. exact self_address_irrelevant_run. Qed.
+Print Assumptions C01_contract_address_is_an_ordinary_account.
+
+(* Aliasing: a self-directed movement (from = to, whichever address, any amount the holder has) changes no
+   balance and not the supply - in every flavour, for transfer, transfer_from and the RWA forced_transfer. *)
+Theorem C01_self_directed_move_is_neutral : forall c s, wf_cfg c = true -> state_inv s ->
+  forall cl a amt s' v evs,
+  (exists au mux, cl = Transfer au a a mux amt) \/ (exists au sp, cl = TransferFrom au sp a a amt) \/
+  cl = RForcedTransfer a a amt ->
+  exec c s cl = Ok (s', v, evs) ->
+  supply (tk s') = supply (tk s) /\ forall x, balance (tk s') x = balance (tk s) x.
+Proof. exact self_directed_move_is_neutral. Qed.
+Print Assumptions C01_self_directed_move_is_neutral.
 
 (* The executable monitor (the property as a boolean over observations) accepts every run of the
    model, and the model's diff with itself is empty. *)
@@ -282,4 +303,37 @@ Example C01_monitor_rejects_malformed_traces :
   c01_why (T FBase [] [mint100; (Transfer [0%N] 0%N 1%N None 5, Ok 0, [ETransfer 0%N 1%N None 5], ob 11 100 (B 95 5 0 0) [] [])]) = (2%N, 7%N) /\
   (* what the harness emits when a trace is lost to a panic in harness code *)
   check {| t_cfg := cf FBase 0; t_univ := []; t_start := 0; t_init := ob 0 (-7777777) [] [] []; t_items := [] |} = (1%N, 1%N, 0%N).
+Proof. vm_compute. repeat split. Qed.
+
+(* ---- follow-up: special addresses as parties, magic amounts, histories ---- *)
+(* the token contract's own address (3), an account-type address (4) and another contract that authorises as
+   the direct invoker (5) hold tokens; nobody can move the contract's own tokens from outside; the magic
+   amount 2^64 is minted, moved, spent exactly and burned; a balance and the supply go through zero and back *)
+Definition sp_univ : list addr := [0%N; 1%N; 2%N; 3%N; 4%N; 5%N].
+Definition sp_calls : list call :=
+  [Mint 3%N 100; Mint 5%N 70; Mint 4%N 50; Transfer [] 3%N 0%N None 10; Transfer [0%N; 1%N; 2%N] 3%N 0%N None 10;
+   Burn [0%N] 3%N 5; Approve [1%N] 3%N 1%N 10 90; Transfer [5%N] 5%N 3%N None 20; Transfer [5%N; 0%N] 5%N 5%N None 50;
+   Transfer [0%N] 5%N 0%N None 1; Approve [5%N] 5%N 2%N 30 90; TransferFrom [2%N] 2%N 5%N 3%N 30;
+   Mint 0%N (2 ^ 64); Transfer [0%N] 0%N 1%N None (2 ^ 64 + 1); Transfer [0%N] 0%N 1%N None (2 ^ 64);
+   Approve [1%N] 1%N 2%N (2 ^ 64) 90; TransferFrom [2%N] 2%N 1%N 0%N (2 ^ 64); Burn [0%N] 0%N (2 ^ 64);
+   Burn [5%N] 5%N 20; Mint 5%N 1].
+Example C01_nonvacuous_special_parties :
+  let s := run (ex_cfg FBase) (init 50) sp_calls in
+  map (fun it => is_ok (snd (fst (fst it)))) (t_items (model_trace (ex_cfg FBase) sp_univ 50 sp_calls))
+    = [true; true; true; false; false; false; false; true; true; false; true; true;
+       true; false; true; true; true; true; true; true] /\
+  balance (tk s) 3%N = 150 /\ balance (tk s) 5%N = 1 /\ balance (tk s) 0%N = 0 /\ supply (tk s) = 201 /\
+  wf_calls sp_univ sp_calls = true /\
+  check (model_trace (ex_cfg FBase) sp_univ 50 sp_calls) = (0%N, 0%N, 0%N).
+Proof. vm_compute. repeat split. Qed.
+
+(* (10) tokens sent to the token contract's own address that vanish (supply no longer the sum of the balances),
+   or that are credited without leaving the sender; a transfer out of the contract's own balance that the
+   replay of events cannot explain *)
+Example C01_monitor_rejects_special_address_anomalies :
+  c01_why (T FBase [] [mint100; (Transfer [0%N] 0%N 3%N None 40, Ok 0, [ETransfer 0%N 3%N None 40], ob 10 100 (B 60 0 0 0) [] [])]) = (2%N, 1%N) /\
+  c01_why (T FBase [] [mint100; (Transfer [0%N] 0%N 3%N None 40, Ok 0, [ETransfer 0%N 3%N None 40], ob 10 140 (B 100 0 0 40) [] [])]) = (2%N, 4%N) /\
+  c01_why (T FBase [] [mint100; (Transfer [0%N] 0%N 3%N None 40, Ok 0, [ETransfer 0%N 3%N None 40], ob 10 100 (B 60 0 0 40) [] []);
+                       (Transfer [] 3%N 1%N None 40, Fail, [], ob 10 100 (B 60 40 0 0) [] [])]) = (3%N, 7%N) /\
+  c01_why (T FBase [] [mint100; (Transfer [0%N] 0%N 3%N None 40, Ok 0, [ETransfer 0%N 3%N None 40], ob 10 100 (B 60 0 0 40) [] [])]) = (0%N, 0%N).
 Proof. vm_compute. repeat split. Qed.
